@@ -11,7 +11,7 @@ def run(ctx):
                 "validated by TLC (RateLimitTrace) against the limiter's own burst; durations are only bounded from below, the "
                 "unlimited direction from above by half of what the other limit would allow; digests must match. Non-trivial = all.")
     ctx.mc("RateLimit.tla", "MC_RateLimit.cfg")
-    for m in ("MC_RateLimit_PerConn.cfg", "MC_RateLimit_NoWait.cfg", "MC_RateLimit_MaxWait.cfg", "MC_RateLimit_Batch.cfg", "MC_RateLimit_Big.cfg"):
+    for m in ("MC_RateLimit_PerConn.cfg", "MC_RateLimit_NoWait.cfg", "MC_RateLimit_MaxWait.cfg", "MC_RateLimit_Batch.cfg", "MC_RateLimit_Big.cfg", "MC_RateLimit_PostPaid.cfg"):
         ok, _, _, _ = ctx.mc("RateLimit.tla", m, expect_ok=False)
         if ok:
             raise vlib.Infra("RateLimit mutant %s not detected by the model" % m)
@@ -27,21 +27,21 @@ def run(ctx):
             ctx.traces_ok += 1
     cases = [r for r in recs if "c" in r]
     if q:
-        cases = [r for r in cases if not r.get("big") and not r.get("fast")]
+        cases = [r for r in cases if not r.get("big") and not r.get("fast") and not r.get("tiny")]
         # every limit pair at least once, both directions and kinds
         crowd = [r for r in cases if r["c"]["conns"] > 4 and r["exp"]["limited"]]
         churn = [r for r in cases if r["c"].get("churn") and r["exp"]["limited"]]
         cases = vlib.sample_list(ctx.rng, [r for r in cases if r["c"]["conns"] <= 3], 12)
         cases += ([r for r in crowd if r["c"]["dir"] == "download"][:1] + [r for r in crowd if r["c"]["dir"] == "upload"][-1:])
         cases += ([r for r in churn if r["c"]["dir"] == "download"][:1] + [r for r in churn if r["c"]["dir"] == "upload"][-1:])
-        cases += [r for r in recs if r.get("big") or r.get("fast")]
+        cases += [r for r in recs if r.get("big") or r.get("fast") or r.get("tiny")]
     trace = os.path.join(ctx.work, "rate.ndjson")
     out = ctx.run_vh(binp, ["c20", "--arg", "trace=" + trace], cases=cases, timeout=3000)
     out, crashed = ctx.nocrash(out, "C20:crash")
     for r in out:
         ctx.evaluations += 1
         c = r["c"]
-        ctx.nontrivial.add("%s/%s/%s/%s/%s/%s/%s" % (c["read"], c["write"], c["conns"], c["dir"], c["kind"], c.get("churn"), r.get("big")))
+        ctx.nontrivial.add("%s/%s/%s/%s/%s/%s/%s" % (c["read"], c["write"], c["conns"], c["dir"], c["kind"], c.get("churn"), str(r.get("big")) + str(r.get("tiny"))))
         if not r["ok"]:
             w = r["why"]
             k = ("too-fast" if "faster than" in w else "throttled-unlimited" if "unlimited" in w else "altered" if "altered" in w else "incomplete")
